@@ -43,6 +43,8 @@ def simp(e):
         return e
     op = e[1]
     a = e[2:]
+    if op == '?:' and len(a) == 3 and a[0][0] == 'num':
+        return simp(a[1] if a[0][1] != 0 else a[2])
     if op == 'neg':
         x = a[0]
         if x[0] == 'num':
